@@ -106,11 +106,12 @@ impl Timestamp {
     /// Returns an error if the formatting fails
     pub fn format(&self, format: TimestampFormat, w: &mut impl io::Write) -> Result<(), FormatTimestampError> {
         match format {
+            // the formats below print a literal `Z` / `GMT`: the instant must be expressed in UTC
             TimestampFormat::DateTime => {
-                self.0.format_into(w, RFC3339)?;
+                self.0.to_offset(time::UtcOffset::UTC).format_into(w, RFC3339)?;
             }
             TimestampFormat::HttpDate => {
-                self.0.format_into(w, RFC1123)?;
+                self.0.to_offset(time::UtcOffset::UTC).format_into(w, RFC1123)?;
             }
             TimestampFormat::EpochSeconds => {
                 let val = self.0.unix_timestamp_nanos();
